@@ -303,3 +303,55 @@ Proof.
       * apply Hy. rewrite <- He. exact Hin.
       * apply Hy. apply (Hcl _ Hin). apply (linkers_intro store (EResolver (t_svc t) r)); [apply get_resolver_In; auto | reflexivity | exact Hrel].
 Qed.
+
+(* ------------------------------------------------------------------ every reachable store is valid *)
+
+(* what ServiceResolverConfigEntry.Validate guarantees of a written entry, as far as the link index
+   needs it: no failover section with both Datacenters and Targets *)
+Definition entry_wf (e : entry) : Prop :=
+  match e with
+  | EResolver _ r => forall key f, In (key, f) (rs_failover r) -> fo_dcs f = [] \/ fo_targets f = []
+  | _ => True
+  end.
+
+Definition op_wf (op : wop) : Prop := match op with WPut e => entry_wf e | WDelete _ => True end.
+
+(* the stores that arise from the empty store by EnsureConfigEntry / DeleteConfigEntry calls (accepted
+   or not) with entries an endpoint can emit *)
+Inductive Reachable : list entry -> Prop :=
+| reach_empty : Reachable []
+| reach_write store op store' acc : Reachable store -> op_wf op -> write store op = (store', acc) -> Reachable store'.
+
+Lemma lookup_put_same store e : lookup_entry (put_entry store e) (ekey e) = Some e.
+Proof.
+  unfold put_entry. rewrite lookup_entry_app, lookup_remove_key, key_eqb_refl. cbn [lookup_entry].
+  rewrite key_eqb_refl. reflexivity.
+Qed.
+
+Lemma failover_wf_proposed store op : failover_wf store -> op_wf op -> failover_wf (proposed store op).
+Proof.
+  intros Hwf Hop n r key f Hg Hin. unfold get_resolver in Hg.
+  destruct (key_eqb (op_key op) (KResolver, n)) eqn:E.
+  - apply key_eqb_eq in E. destruct op as [e|k]; cbn [op_key proposed] in *.
+    + rewrite <- E, lookup_put_same in Hg. destruct e; try discriminate. injection Hg as ->.
+      cbn [entry_wf op_wf] in Hop. eapply Hop; eauto.
+    + subst k. rewrite lookup_remove_key, key_eqb_refl in Hg. discriminate.
+  - rewrite lookup_proposed in Hg.
+    + eapply (Hwf n r key f); eauto.
+    + intros H. rewrite H, key_eqb_refl in E. discriminate.
+Qed.
+
+(* the history-level invariant: in every reachable store every chain compiles (and the link index
+   lists every service a chain can read) *)
+Theorem reachable_valid store :
+  Reachable store -> failover_wf store /\ forall x mo, exists g, compile store test_ctx x mo = Ok g.
+Proof.
+  induction 1 as [|store op store' acc Hr [IHw IHv] Hop Hw].
+  - split; [intros n r key f Hg; discriminate|]. intros x mo. apply plain_chain_compiles; reflexivity.
+  - destruct acc.
+    + split.
+      * destruct (write_guard _ _ _ _ Hw) as (_ & _ & Hst). destruct (Hst eq_refl) as [->|[_ ->]]; auto.
+        apply failover_wf_proposed; auto.
+      * intros x mo. eapply write_preserves_validity; eauto.
+    + destruct (write_guard _ _ _ _ Hw) as (_ & Hst & _). rewrite (Hst eq_refl). auto.
+Qed.
